@@ -12,3 +12,6 @@ def run_proofs(ctx):
     from vf.proofs import c18_eval
 
     c18_eval.run_proofs(ctx)
+    from vf.proofs import c04_stateful
+
+    c04_stateful.run_proofs(ctx)
